@@ -29,6 +29,19 @@ class _Boom(Exception):
   """The exception used for ExitByException."""
 
 
+class CallbackError(Exception):
+  """Raised by the user callbacks (exit_fn, error_handler) the spec marks as raising."""
+
+
+def make_refused_cm(m: str):
+  """A manager called with an argument it must refuse."""
+  if m == 'dyn':
+    return pg.hyper.dynamic_evaluate('not callable')
+  if m == 'detour':
+    return pg.detour([('not a class', CA)])
+  raise ValueError(m)
+
+
 class A(pg.Object):
   x: int
 
@@ -124,7 +137,7 @@ def triples(a):
   return [(a[3 * i], a[3 * i + 1], a[3 * i + 2]) for i in range(len(a) // 3)]
 
 
-def make_cm(m: str, a: List[int]):
+def make_cm(m: str, a: List[int], calls: Optional[List[str]] = None):
   """The context manager object for spec manager m with argument a (public API only)."""
   if m == 'notify':
     return pg.notify_on_change(BOOL[a[0]])
@@ -166,13 +179,26 @@ def make_cm(m: str, a: List[int]):
   if m == 'wrap':
     return pg.apply_wrappers([W1])
   if m == 'dyn':
-    return pg.hyper.dynamic_evaluate(FNS[a[0]], per_thread=bool(a[1]))
+    exit_fn = None
+    if a[2]:
+      def exit_fn():
+        if calls is not None:
+          calls.append('exit_fn')
+        if a[2] == 2:
+          raise CallbackError('exit_fn raises')
+    return pg.hyper.dynamic_evaluate(FNS[a[0]], per_thread=bool(a[1]), exit_fn=exit_fn)
   if m == 'ldtypes':
     return pg.JSONConvertible.load_types_for_deserialization(*[TYPES[i] for i in a])
   if m == 'timeit':
     return pg.timeit(NAMES[a[0]])
   if m == 'catch':
-    return pg.catch_errors(_Boom)
+    handler = None
+    if a[0] == 1:
+      def handler(e):
+        if calls is not None:
+          calls.append('error_handler')
+        raise CallbackError('error_handler raises')
+    return pg.catch_errors(_Boom, handler)
   raise ValueError(m)
 
 
@@ -363,6 +389,7 @@ class Worker(threading.Thread):
     self.open_timers = 0
     self.obs: Optional[Observer] = None
     self.completed_local_dyn = False    # this thread has left a per-thread dynamic_evaluate scope
+    self.calls: List[str] = []          # user callbacks run by the managers of this thread
 
   def run(self):
     self.obs = Observer()
@@ -391,7 +418,7 @@ class Worker(threading.Thread):
       if kind == 'enter':
         m, a = cmd[1], cmd[2]
         try:
-          cm = make_cm(m, a)
+          cm = make_cm(m, a, self.calls)
           cm.__enter__()
           self.stack.append((m, a, cm))
           if m == 'timeit':
@@ -410,20 +437,38 @@ class Worker(threading.Thread):
             raise _Boom('propagated scope left by exception')
           return
         m, a, cm = top
+        del self.calls[:]
         try:
-          if by_exc:
-            try:
-              raise _Boom('exit by exception')
-            except _Boom:
-              et, ev, tb = sys.exc_info()
-            suppressed = bool(cm.__exit__(et, ev, tb))
-          else:
-            suppressed = bool(cm.__exit__(None, None, None))
+          raised = None
+          try:
+            if by_exc:
+              try:
+                raise _Boom('exit by exception')
+              except _Boom:
+                et, ev, tb = sys.exc_info()
+              suppressed = bool(cm.__exit__(et, ev, tb))
+            else:
+              suppressed = bool(cm.__exit__(None, None, None))
+          except CallbackError as e:
+            suppressed = False
+            raised = type(e).__name__
           if m == 'timeit':
             self.open_timers -= 1
           if m == 'dyn' and a[1] == 1:
             self.completed_local_dyn = True
-          self.outbox.put(('ok', suppressed))
+          outcome = ('raised' if raised else 'suppressed' if (by_exc and suppressed) else
+                     'propagated' if by_exc else 'ok')
+          self.outbox.put(('ok', {'out': outcome, 'cbk': len(self.calls)}))
+        except Exception as e:  # pylint: disable=broad-except
+          self.outbox.put(('error', f'{type(e).__name__}: {e}'))
+      elif kind == 'enter_refused':
+        try:
+          cm = make_refused_cm(cmd[1])
+          cm.__enter__()
+          self.stack.append((cmd[1], [], cm))
+          self.outbox.put(('ok', {'out': 'entered'}))
+        except (TypeError, ValueError) as e:
+          self.outbox.put(('ok', {'out': 'refused', 'error': type(e).__name__}))
         except Exception as e:  # pylint: disable=broad-except
           self.outbox.put(('error', f'{type(e).__name__}: {e}'))
       elif kind == 'mkwrap':
@@ -618,11 +663,21 @@ class Replayer:
         status, payload = self.workers[t].call('exit', kind == 'ExitByException')
         self.hit('exit:' + kind)
         self.hit('exit:' + mgr)
-        if status == 'ok' and kind == 'ExitByException':
-          want_suppressed = (mgr == 'catch')
-          if bool(payload) != want_suppressed:
-            return [{'clause': 'exception_exit', 'component': mgr, 'thread': t, 'expected': want_suppressed,
+        if status == 'ok':
+          want = {'out': step.state['out'], 'cbk': step.state['cbk']}
+          self.hit('exit_outcome:' + want['out'])
+          if want['cbk']:
+            self.hit('exit_callback_run')
+          if payload != want:
+            return [{'clause': 'exit_outcome', 'component': mgr, 'thread': t, 'expected': want,
                      'observed': payload, 'step_kind': kind, 'step_mgr': mgr, 'observed_by': 'exit'}], i
+      elif kind == 'EnterRaises':
+        t, mgr = act[1], act[2]
+        status, payload = self.workers[t].call('enter_refused', mgr)
+        self.hit('enter_refused:' + mgr)
+        if status == 'ok' and payload['out'] != 'refused':
+          return [{'clause': 'enter_refused', 'component': mgr, 'thread': t, 'expected': 'TypeError/ValueError',
+                   'observed': payload, 'step_kind': kind, 'step_mgr': mgr, 'observed_by': 'enter'}], i
       else:
         raise RuntimeError(f'unknown action {act}')
       if status != 'ok':
